@@ -2476,6 +2476,23 @@ func (w *walker) stmt(st ast.Stmt, s vset) vset {
 			}
 			s = w.assign(l, rhs, s)
 		}
+		// `x, err := f(…)` where every return of f hands back a freshly made object as result i:
+		// x is not nil, whatever err is
+		if len(t.Lhs) > 1 && len(t.Rhs) == 1 && w.sc.local {
+			if call, ok := ast.Unparen(t.Rhs[0]).(*ast.CallExpr); ok {
+				if fi := w.e.p.FuncOf(Callee(w.sc.info, call)); fi != nil {
+					for i, l := range t.Lhs {
+						if !neverNilResult(fi, i) {
+							continue
+						}
+						pth := strings.TrimPrefix(w.e.canon(l, w.sc, nil), "&")
+						if ai, ok := w.u.idx["eq("+pth+",nil)"]; ok {
+							s = w.u.assume(s, ai, false)
+						}
+					}
+				}
+			}
+		}
 		// `b, err = pred(args)`: tie the variable to the call-result atom res0(call)@site
 		if len(t.Lhs) == 2 && len(t.Rhs) == 1 {
 			if call, ok := ast.Unparen(t.Rhs[0]).(*ast.CallExpr); ok {
@@ -2931,4 +2948,65 @@ func syncLiteral(fn *FuncInfo, fl *ast.FuncLit) bool {
 		}
 	}
 	return false
+}
+
+// neverNilResult: every return statement of fi yields, as result i, a freshly made object
+// (&T{…}, new(T)) or a local whose every definition is one.
+func neverNilResult(fi *FuncInfo, i int) bool {
+	if fi.Decl.Body == nil {
+		return false
+	}
+	sig := fi.Obj.Type().(*types.Signature)
+	if i >= sig.Results().Len() {
+		return false
+	}
+	if _, isPtr := sig.Results().At(i).Type().Underlying().(*types.Pointer); !isPtr {
+		return false
+	}
+	info := fi.Info()
+	fresh := func(x ast.Expr) bool {
+		x = ast.Unparen(x)
+		if u, ok := x.(*ast.UnaryExpr); ok && u.Op == token.AND {
+			_, isLit := ast.Unparen(u.X).(*ast.CompositeLit)
+			return isLit
+		}
+		return nonNilProducer(info, x)
+	}
+	rets := declReturns(fi.Decl.Body)
+	if len(rets) == 0 {
+		return false
+	}
+	for _, r := range rets {
+		if len(r.Results) != sig.Results().Len() {
+			return false
+		}
+		x := ast.Unparen(r.Results[i])
+		if fresh(x) {
+			continue
+		}
+		o := identObj(info, x)
+		if o == nil {
+			return false
+		}
+		ds := varDefs(fi, o)
+		if len(ds) == 0 {
+			return false
+		}
+		for _, d := range ds {
+			if d.rhs == nil || !fresh(d.rhs) {
+				return false
+			}
+		}
+		addr := false
+		ast.Inspect(fi.Decl.Body, func(n ast.Node) bool {
+			if u, ok := n.(*ast.UnaryExpr); ok && u.Op == token.AND && identObj(info, u.X) == o {
+				addr = true
+			}
+			return !addr
+		})
+		if addr {
+			return false
+		}
+	}
+	return true
 }
